@@ -29,7 +29,7 @@ META = {
         "distinct_nontrivial = distinct terminal per-message logs."
     ),
     "assumptions": [
-        "sync tasks run on a fake executor (completion is an explorer event; no real thread)",
+        "sync tasks run on a fake executor: completion is an explorer event; in the 'threads' scenarios each sync function runs on a real thread under a strict baton hand-off (entering and leaving the function are separate explorer events, so executions overlap), otherwise atomically with no thread",
         "StopIteration/StopAsyncIteration outcomes are excluded: CPython converts them before taskiq sees them",
     ],
     "required_counters": ["wiring_cases", "scenarios", "terminal_states", "results_checked"],
@@ -200,6 +200,26 @@ def scenarios(tier: str) -> List[Dict[str, Any]]:
         for j1, j2 in itertools.product(range(len(base)), repeat=2):
             msgs = [dict(base[j1], timeout=0.3, gates=["save"]), dict(base[j2], save_fails=True)]
             out.append(_sc(msgs, 1))
+    # sync functions that really overlap: the executor runs each on its own thread (strict hand-off), so
+    # a second function is entered while the first is still inside its body - incl. one that outlived
+    # its timeout label and is still running when the next message arrives
+    sync_base = [
+        _m("sync", value=7), _m("sync", outcome="raise"), _m("sync", outcome="noresult"),
+        _m("sync", outcome="never", timeout=0.2), _m("sync", timeout=0.2, value="late"), _m("sync", outcome="raise", exc="CustomBase"),
+    ]
+    for j1, j2 in itertools.product(range(len(sync_base)), repeat=2):
+        sc = _sc([dict(sync_base[j1]), dict(sync_base[j2])], 0)
+        sc["executor"] = "threads"
+        out.append(sc)
+    for j in range(len(sync_base)):
+        sc = _sc([dict(sync_base[j]), _m("async", value=1), dict(sync_base[0])], 0, a=3)
+        sc["executor"] = "threads"
+        out.append(sc)
+    if tier == "thorough":
+        for js in itertools.product(range(4), repeat=3):
+            sc = _sc([dict(sync_base[j]) for j in js], 0, a=3)
+            sc["executor"] = "threads"
+            out.append(sc)
     return out
 
 
